@@ -417,6 +417,34 @@ impl C07 {
         } else {
             rep.count("claim_possible", "long_history_probe: spent-farm part could not be set up");
         }
+        self.ledger = saved.clone();
+        w.restore(&snap);
+        // ---- part 4: weights beyond 64 bits (some eighteen whole tokens of an 18-decimals LP
+        // token) and emissions of 1e21 per epoch: the share must still be the exact floor
+        if let Some(lp4) = s.post.pools.values().map(|p| p.info.lp_denom.clone()).next() {
+            let (ua, ub) = (w.users[0].clone(), w.users[1].clone());
+            let creator4 = w.users.get(2).cloned().unwrap_or(owner.clone());
+            let big = 1u128 << 64;
+            w.mint_to(&ua, coin(big, lp4.clone()));
+            w.mint_to(&ub, coin(big + 3, lp4.clone()));
+            let mut ok4 = self.forked(w, &claim_op(&ua, None), s.idx, rep) | true;
+            ok4 &= self.forked(w, &pos_op(&ua, PositionAction::Create { identifier: Some(format!("lw{}a", s.idx)), unlocking_duration: s.fpost.cfg.min_unlocking_duration, receiver: None }, vec![coin(big, lp4.clone())]), s.idx, rep);
+            ok4 &= self.forked(w, &pos_op(&ub, PositionAction::Create { identifier: Some(format!("lw{}b", s.idx)), unlocking_duration: s.fpost.cfg.min_unlocking_duration, receiver: None }, vec![coin(big + 3, lp4.clone())]), s.idx, rep);
+            let k4 = 3u64;
+            let reward4 = coin(10u128.pow(21) * k4 as u128, "udai");
+            self.forked(w, &crate::wfarm::fm_config_op(&owner, |p| p.max_concurrent_farms = Some(limit)), s.idx, rep);
+            ok4 &= self.forked(w, &farm_op(&creator4, FarmAction::Create { params: FarmParams { lp_denom: lp4.clone(), start_epoch: Some(cur + 1), preliminary_end_epoch: Some(cur + 1 + k4), curve: None, farm_asset: reward4.clone(), farm_identifier: Some(format!("lw{}", s.idx)) } }, farm_funds(&reward4, &fee)), s.idx, rep);
+            if ok4 {
+                for _ in 0..(k4 + 1) {
+                    self.forked(w, &Op::Advance { secs: day }, s.idx, rep);
+                }
+                let a_ok = self.forked(w, &claim_op(&ua, None), s.idx, rep);
+                let b_ok = self.forked(w, &claim_op(&ub, None), s.idx, rep);
+                rep.count("share_exact", &format!("long_history_probe: claims with weights beyond 64 bits and 1e21 per epoch (executed: {a_ok}/{b_ok})"));
+            } else {
+                rep.count("share_exact", "long_history_probe: large-weight part could not be set up");
+            }
+        }
         self.ledger = saved;
         w.restore(&snap);
     }
